@@ -120,7 +120,10 @@ func (u *UnitGen) lockCheck(fr *Frame, st *State, a *Addr, write bool, v ssa.Val
 		u.oblige(st, "lock", u.obName("lock:write("+n+")"), "write of "+n+" requires "+mu+" held for writing", Eq(cur, IntN(2)))
 		u.sectionWrite(st, lk, a.ref, n, mu)
 	} else {
-		u.oblige(st, "lock", u.obName("lock:read("+n+")"), "read of "+n+" requires "+mu+" held", App(SBool, ">=", cur, IntN(1)))
+		// a read of an object allocated during this call (by the unit or by a callee) before the unit has
+		// started any goroutine needs no lock: nothing else can reach it yet
+		private := And(App(SBool, ">=", a.ref, u.top0), Eq(u.get(st, "G:spawned", SInt), u.spawned0))
+		u.oblige(st, "lock", u.obName("lock:read("+n+")"), "read of "+n+" requires "+mu+" held (unless the object was allocated during this call and no goroutine was started)", Or(App(SBool, ">=", cur, IntN(1)), private))
 		u.sectionRead(st, lk, a.ref)
 	}
 	if v != nil {
@@ -204,7 +207,8 @@ func (u *UnitGen) lockCheckMapRead(fr *Frame, st *State, m ssa.Value) {
 		return
 	}
 	cur := Select(u.get(st, g.lockKey, ArraySort(SInt, SInt)), g.ref)
-	u.oblige(st, "lock", u.obName("lock:read("+g.name+"[])"), "read of map "+g.name+" requires "+g.mutex+" held", App(SBool, ">=", cur, IntN(1)))
+	private := And(App(SBool, ">=", g.ref, u.top0), Eq(u.get(st, "G:spawned", SInt), u.spawned0))
+	u.oblige(st, "lock", u.obName("lock:read("+g.name+"[])"), "read of map "+g.name+" requires "+g.mutex+" held (unless its owner was allocated during this call and no goroutine was started)", Or(App(SBool, ">=", cur, IntN(1)), private))
 	u.sectionRead(st, g.lockKey, g.ref)
 }
 
